@@ -203,6 +203,13 @@ fn float_alphabet() -> Vec<f32> {
         65535.0,
         3.0e38,
         1.0 / 3.0,
+        // negative alpha is an ordinary value for float images (a negative-lobe filter undershoots
+        // at a transparency edge): c/a, not "transparent"
+        -f32::MIN_POSITIVE,
+        -0.25,
+        -1.0,
+        -2.0,
+        -65535.0,
     ]
 }
 
